@@ -95,26 +95,47 @@ def task(args):
                     fails.append(f'{key} = None (found={found}): calls {[(c[0]) for c in calls]}, expected {[w[0] for w in want]}')
             except Exception as ex:
                 fails.append(f'{key} = None (found={found}): raises {type(ex).__name__}')
-            # -- plain value
-            cv = elem.valid_value(table[a][1])
-            if cv != '':
+            # -- plain value: the schema-valid sample value, falsy values, the same number under another type, a bool; the expected
+            #    outcome (stored value or exception type) is what the explicit API does on a twin
+            for cv in plain_values(X, table, a):
+                twin = mkchild(a)
+                try:
+                    twin.value_ = cv
+                    exp = None
+                except Exception as ex:
+                    exp = type(ex)
                 e = fresh()
                 old = mkchild(a)
+                before = old.value_
                 if found:
                     e._unordered_children.append(old); old._parent = e
+                else:
+                    try:
+                        ccls(cv, xsd_check=False)
+                        exp = None
+                    except Exception as ex:
+                        exp = type(ex)
                 calls = instrumented(e)
                 n += 1
                 try:
                     setattr(e, key, cv)
-                    if found:
-                        if calls or old.value_ != cv:
-                            fails.append(f'{key} = {cv!r} (found): calls {[c[0] for c in calls]}, child value {old.value_!r}')
-                    else:
-                        ok = (len(calls) == 1 and calls[0][0] == 'add_child' and type(calls[0][1][0]) is ccls and calls[0][1][0].value_ == cv)
-                        if not ok:
-                            fails.append(f'{key} = {cv!r} (not found): calls {[c[0] for c in calls]}')
+                    got = None
                 except Exception as ex:
-                    fails.append(f'{key} = {cv!r} (found={found}): raises {type(ex).__name__}')
+                    got = type(ex)
+                if got is not exp:
+                    fails.append(f'{key} = {cv!r} (found={found}): {"raises " + got.__name__ if got else "accepted"}, the explicit API {"raises " + exp.__name__ if exp else "accepts"}')
+                elif found:
+                    if got is None and (calls or old.value_ != cv or type(old.value_) is not type(cv)):
+                        fails.append(f'{key} = {cv!r} (found): calls {[c[0] for c in calls]}, child value {old.value_!r}')
+                    if got is not None and (calls or old.value_ is not before):
+                        fails.append(f'{key} = {cv!r} (found, refused): calls {[c[0] for c in calls]}, child value {old.value_!r}')
+                elif got is None:
+                    ok = (len(calls) == 1 and calls[0][0] == 'add_child' and type(calls[0][1][0]) is ccls and calls[0][1][0].value_ == cv
+                          and type(calls[0][1][0].value_) is type(cv))
+                    if not ok:
+                        fails.append(f'{key} = {cv!r} (not found): calls {[c[0] for c in calls]}')
+                elif calls:
+                    fails.append(f'{key} = {cv!r} (not found, refused): calls {[c[0] for c in calls]}')
             # -- read
             e = fresh()
             if found:
@@ -199,7 +220,67 @@ def task(args):
         fails.append(f'read of an unknown name raises {type(ex).__name__}')
     obs.append(dict(oid=f'C15/attributes/{name}', status='discharged' if not fails else 'violated', detail='; '.join(fails[:3]) or None, paths=n, name=name, cname=cname,
                     kind='attributes'))
+    # ---- attribute histories: dot assignment == update of the attribute dictionary, position included (the serialised order)
+    seq = attr_sequence(cls, tkey)
+    if seq:
+        import musicxml.xsd.xsdattribute as AT
+        real_call = AT.XSDAttribute.__call__
+        AT.XSDAttribute.__call__ = lambda self, v: None        # callee contract: the values are accepted
+        fails = []
+        try:
+            e1, e2 = fresh(), fresh()
+            for i, (k, v) in enumerate(seq):
+                setattr(e1, k.replace('-', '_'), v)
+                if v is None:
+                    e2.attributes.pop(k, None)
+                else:
+                    e2.attributes[k] = v
+                if list(e1.attributes.items()) != list(e2.attributes.items()):
+                    fails.append(f'after {seq[:i + 1]}: dot assignment gives {list(e1.attributes.items())}, dictionary update gives {list(e2.attributes.items())}')
+                    break
+            if not fails:
+                a, b = e1.to_string(), e2.to_string()
+                if a != b:
+                    fails.append(f'after {seq}: serialisations differ: {a!r} vs {b!r}')
+        except Exception as ex:
+            fails.append(f'attribute history {seq}: raises {type(ex).__name__}: {str(ex)[:80]}')
+        finally:
+            AT.XSDAttribute.__call__ = real_call
+        obs.append(dict(oid=f'C15/attribute-history/{name}', status='discharged' if not fails else 'violated', detail='; '.join(fails[:1]) or None, paths=len(seq),
+                        name=name, cname=cname, kind='attrseq', seq=seq))
     return obs
+
+
+def attr_sequence(cls, tkey):
+    """set A, set B, (set C,) set A again, remove B, set B again, set A a third time -- over the first declared attributes the library knows"""
+    if tkey not in xsdspec.ALL_CT:
+        return []
+    try:
+        lib = [a.name for a in cls.TYPE.get_xsd_attributes()]
+    except Exception:
+        return []
+    # attribute names that collide with the class's own properties ('name', ...) cannot be dot-assigned at all: that is the C04 finding, not a case here
+    ks = [qn for qn, _, _ in elem.declared_attrs(tkey) if qn in lib and qn.replace('-', '_').isidentifier() and qn.replace('-', '_') not in cls._PROPERTIES][:3]
+    if len(ks) < 2:
+        return []
+    a, b = ks[0], ks[1]
+    seq = [(a, 'a1'), (b, 'b1')] + ([(ks[2], 'c1')] if len(ks) > 2 else []) + [(a, 'a2'), (b, None), (b, 'b2'), (a, 'a3')]
+    return seq
+
+
+def plain_values(X, table, a):
+    ccn, ctk = table[a]
+    cv = elem.valid_value(ctk)
+    cand = ([cv] if cv != '' else []) + [0, 0.0, '', True]
+    if isinstance(cv, int) and not isinstance(cv, bool):
+        cand.append(float(cv))
+    if isinstance(cv, float) and cv == int(cv):
+        cand.append(int(cv))
+    out = []
+    for f in cand:
+        if not any(f == x and type(f) is type(x) for x in out):
+            out.append(f)
+    return out
 
 
 def replay_source(o):
@@ -208,15 +289,32 @@ def replay_source(o):
     tkey = table[name][1]
     value = elem.valid_value(tkey)
     mk = f"X.{cname}({value!r}, xsd_check=False)" if value != '' else f"X.{cname}(xsd_check=False)"
+    if o.get('kind') == 'attrseq':
+        return f'''import musicxml.xmlelement.xmlelement as X, musicxml.xsd.xsdattribute as AT
+AT.XSDAttribute.__call__ = lambda self, v: None   # callee contract: the values are accepted
+e1 = {mk}; e2 = {mk}
+for k, v in {[tuple(x) for x in o['seq']]!r}:
+    setattr(e1, k.replace('-', '_'), v)
+    if v is None: e2.attributes.pop(k, None)
+    else: e2.attributes[k] = v
+print('dot assignment   :', e1.to_string().strip())
+print('dictionary update:', e2.to_string().strip())
+print({o['detail']!r})
+sys.exit(0 if e1.to_string() == e2.to_string() and list(e1.attributes.items()) == list(e2.attributes.items()) else 1)
+'''
     kids = xsdspec.alphabet(xsdspec.MODELS[tkey]) if tkey in xsdspec.MODELS else []
     mkk = {}
     for a in kids:
         ccn, ctk = table[a]
         v = elem.valid_value(ctk)
         mkk[a] = f"X.{ccn}({v!r}, xsd_check=False)" if v != '' else f"X.{ccn}(xsd_check=False)"
-    return f'''import musicxml.xmlelement.xmlelement as X
+    import musicxml.xmlelement.xmlelement as X_
+    vals = {a: plain_values(X_, table, a) for a in kids}
+    return f'''import sys
+import musicxml.xmlelement.xmlelement as X
 bad = 0
 kids = {mkk!r}
+vals = {vals!r}
 for a, src in kids.items():
     key = 'xml_' + a.replace('-', '_')
     # shortcut vs explicit API on two identical elements holding three children of the same kind
@@ -244,6 +342,23 @@ for a, src in kids.items():
     if r1 != r2: print(key, '= None: shortcut gives', r1, 'explicit remove gives', r2); bad = 1
     e1, c1 = build()
     if getattr(e1, key) is not c1[0]: print('read', key, 'does not return the first child'); bad = 1
+    for v in vals[a]:
+        e1, c1 = build(); e2, c2 = build()
+        try:
+            setattr(e1, key, v); r1 = [(c1.index(c), c.value_, type(c.value_).__name__) for c in e1.get_children()]
+        except Exception as ex: r1 = type(ex).__name__
+        try:
+            c2[0].value_ = v; r2 = [(c2.index(c), c.value_, type(c.value_).__name__) for c in e2.get_children()]
+        except Exception as ex: r2 = type(ex).__name__
+        if r1 != r2: print(key, '=', repr(v), '(child present): shortcut gives', r1, 'explicit value assignment gives', r2); bad = 1
+        e1 = {mk}; e2 = {mk}
+        try:
+            setattr(e1, key, v); r1 = [(type(c).__name__, c.value_, type(c.value_).__name__) for c in e1.get_children()]
+        except Exception as ex: r1 = type(ex).__name__
+        try:
+            e2.add_child(type(eval(src))(v)); r2 = [(type(c).__name__, c.value_, type(c.value_).__name__) for c in e2.get_children()]
+        except Exception as ex: r2 = type(ex).__name__
+        if r1 != r2: print(key, '=', repr(v), '(no such child): shortcut gives', r1, 'explicit add_child gives', r2); bad = 1
 print({o['detail']!r})
 sys.exit(bad)
 '''
@@ -262,7 +377,7 @@ def run(tier='quick', seed=0):
     from ..par import collect
     all_obs.extend(collect(task, tasks, 12, 600, lambda t, why: dict(oid=f'C15/worker/{t[0]}', status='undecided', detail=why, paths=0, name=t[0], cname=t[1], kind='worker')))
     viol = sorted((o for o in all_obs if o['status'] == 'violated' and R.match_known(o['oid'], o.get('detail')) is None), key=lambda o: o['oid'])
-    srcs = [(o['oid'], replay_source(o), str(o.get('detail'))) for o in viol[:report.REPLAY_CAP] if o.get('kind') == 'children']
+    srcs = [(o['oid'], replay_source(o), str(o.get('detail'))) for o in viol[:report.REPLAY_CAP] if o.get('kind') in ('children', 'attrseq')]
     replayed = report.replay_many('C15', srcs, cap=len(srcs))
     for o in sorted(all_obs, key=lambda o: o['oid']):
         ob = report.Ob(o['oid'], o['status'], level='finite-complete', backend='enumeration', detail=o.get('detail'), paths=o.get('paths', 0))
